@@ -23,3 +23,4 @@ PROP = {
     "level_note": "Trusted: long double arithmetic of the test polynomials, the reference rule in harness/special_common.hpp, the derivation of the node-rounding term k(k+1) ulp.",
     "assumptions": STD_ASSUME + ["exactness tolerance 512 eps |b-a| + k(k+1) ulp(max|a|,|b|) ('to rounding' for a routine that converges its nodes to 1e-14; measured <= ~100 eps for all n <= 4000): the second term is the unavoidable rounding of node positions in an interval far from the origin"],
 }
+PROP["level_text"] += ' Before the observed call one to three rules of other orders (n+-1, 30, 199/200) are computed; a rule held by reference must survive later calls; intervals down to 1e-300 wide at the origin.'
